@@ -18,12 +18,19 @@
   instantiate them with the constants regenerated from /repo.
 -/
 import ScionTime.Proofs.ServerOpsHeap
+import ScionTime.Proofs.ServerReply
 import ScionTime.Gen.Server
 namespace ScionTime.Props.C07
 open ScionTime.Time64 ScionTime.Server
 
 theorem C07_pin_tssCap : Gen.Server.tssCap = (tssCap : Int) := by decide
 theorem C07_pin_tssItemCap : Gen.Server.tssItemCap = (tssItemCap : Int) := by decide
+/-- Structural fact extracted from the Go AST on every run (harness/extract/x_c07.go):
+    `handleRequest` and `updateTXTimestamp` call `tssMu.Lock()` followed immediately by
+    `defer tssMu.Unlock()` before any mention of `tss`/`tssQ`, and no other function of the
+    package (except the heap interface methods and the verif hooks) mentions the store. This
+    is what justifies treating the two functions as atomic steps of a sequential machine. -/
+theorem C07_pin_lock_discipline : Gen.Server.fact_tssMu_lock_discipline = true := by decide
 
 /-- no condition on the entries -/
 abbrev PT : Entry → Prop := fun _ => True
@@ -151,6 +158,49 @@ theorem C07_no_index_panic (cap icap : Nat) (hcap : 1 ≤ cap) (st : State) (inv
     have := (inv.1.wf.bwd id it.qidx (by unfold pos; rw [hf]; rfl)).1
     simp only [decide_eq_false_iff_not, Nat.not_le]
     exact ⟨this, this⟩
+
+/-- When a known client's request carries a receive timestamp later than every one kept for
+    it (requests arriving in timestamp order), its rank in the activity index becomes exactly
+    that timestamp — the most recent stored exchange. -/
+theorem C07_qval_exact_in_order (strict : Bool) (cap icap : Nat) (st : State) (inv : Inv cap icap st)
+    (id : Nat) (req : Req) (rxt now : Int) (it : Item) (hit : st.items.find id = some it)
+    (hord : ∀ e ∈ it.buf,
+      after (ofTime (handleRequestG strict cap icap st id req rxt now).rxt) e.rx = true)
+    (it' : Item) (hf : (handleRequestG strict cap icap st id req rxt now).st.items.find id = some it') :
+    it'.qval = ofTime (handleRequestG strict cap icap st id req rxt now).rxt := by
+  have ok := inv.1.items id it hit
+  have ho := (hr_outputs strict cap icap st id req rxt now).1 it hit
+  rw [ho.1] at hord ⊢
+  unfold handleRequestG at hf
+  simp only [hit] at hf
+  have sinv := scan_inv it.buf req.org
+  obtain ⟨q', _, _, _, s1, hq'⟩ := hr_fix_spec st inv.1.wf id it hit (scan it.buf req.org).mx
+    (ofTime (uniq it.buf rxt (if (strict && !decide (rxt < now)) = true then rxt + 1 else now) (it.buf.length + 1)).1)
+  obtain ⟨it1, h1, _, h3⟩ := find_after_update st.items _ id it q'
+    (fun b => storeEntry icap b (scan it.buf req.org)
+      ⟨ofTime (uniq it.buf rxt (if (strict && !decide (rxt < now)) = true then rxt + 1 else now) (it.buf.length + 1)).1,
+       ofTime (uniq it.buf rxt (if (strict && !decide (rxt < now)) = true then rxt + 1 else now) (it.buf.length + 1)).2, id⟩)
+    hit s1
+  rw [h1] at hf
+  cases hf
+  rw [h3]
+  rcases hq' with ⟨_, _, hf⟩ | ⟨e, _, _⟩
+  · exfalso
+    cases hm : (scan it.buf req.org).mx with
+    | none =>
+      have := sinv.mx_none hm
+      have := ok.len_pos
+      simp_all
+    | some p =>
+      obtain ⟨i, v⟩ := p
+      obtain ⟨h1', _⟩ := sinv.mx_some i v hm
+      obtain ⟨x, hx, hxe⟩ := mem_of_getElem?_map h1'
+      have a := hf i v hm
+      have b := hord x hx
+      rw [hxe] at b
+      unfold txt0 at b
+      rw [a] at b; cases b
+  · exact e
 
 theorem evict_spec (cap icap : Nat) (hcap : 1 ≤ cap) (st : State) (inv : Inv0 PT cap icap st) (rxt64 : T64) :
     ((evict cap st rxt64).2 = none ∧ (evict cap st rxt64).1 = st ∧
